@@ -36,7 +36,11 @@ func c29Enum(c *mc.Ctx, yield func(c29Spec)) {
 				yield(c29Spec{append([]string{}, cur...), r, true})
 			}
 		}
-		if len(cur) == 3 {
+		maxLen := 3
+		if c.Thorough() {
+			maxLen = 4
+		}
+		if len(cur) == maxLen {
 			return
 		}
 		for _, t := range allTypes {
